@@ -305,6 +305,7 @@ pub fn main(args: &[String]) -> i32 {
         return 2;
     }
     let _ = std::fs::create_dir_all(&out);
+    std::panic::set_hook(Box::new(|_| {}));
     let (count, budget) = if tier == "thorough" { (16, 1_500_000) } else { (5, 170_000) };
     let sessions: Vec<Value> = match &replay {
         Some(f) => {
@@ -336,7 +337,18 @@ pub fn main(args: &[String]) -> i32 {
     let mut drops = 0usize;
     for (i, s) in sessions.iter().enumerate() {
         let mode = s["mode"].as_str().unwrap_or("dumb").to_string();
-        let r = run_session(s, epilogues.get(&mode).map(|v| v.as_slice()));
+        let _ = std::fs::write(format!("{}/current_session.json", out), s.to_string());
+        let r = match std::panic::catch_unwind(std::panic::AssertUnwindSafe(|| run_session(s, epilogues.get(&mode).map(|v| v.as_slice())))) {
+            Ok(r) => r,
+            Err(_) => Outcome {
+                coq: "Sess (Pk 0 []) (Pk 0 []) [] (Pk 0 [])".into(),
+                json: s.clone(),
+                error: Some("the terminal object panicked".into()),
+                bytes: 0,
+                short_polls: 0,
+                drops_discarding: 0,
+            },
+        };
         if let Some(e) = &r.error {
             errors.push(format!("session {}: {}", i, e));
         }
@@ -354,6 +366,7 @@ pub fn main(args: &[String]) -> i32 {
     let meta = json!({"sessions": js, "errors": errors, "bytes_written": total,
                       "polls_returning_with_output_pending": short_polls, "drops_discarding_frames": drops});
     let _ = std::fs::write(format!("{}/sessions.json", out), serde_json::to_string(&meta).unwrap());
+    let _ = std::fs::remove_file(format!("{}/current_session.json", out));
     println!("pty16: {} sessions, {} bytes, {} partial polls, {} discarding drops, {} errors", js.len(), total, short_polls, drops, errors.len());
     if errors.is_empty() {
         0
